@@ -18,7 +18,9 @@ use world::Stats;
 const VECTORS: &str = "/verif/vectors/cacophony.txt";
 const FINDINGS: &str = "/verif/known_findings.json";
 const REPLAYS: &str = "/verif/replays";
-const EVIDENCE: &str = "/verif/evidence";
+fn evidence_dir() -> String {
+    std::env::var("VERIF_EVIDENCE_DIR").unwrap_or_else(|_| "/verif/evidence".to_string())
+}
 
 fn verif_seed() -> u64 {
     std::env::var("VERIF_SEED").ok().and_then(|s| s.parse().ok()).unwrap_or(1)
@@ -125,6 +127,7 @@ fn cmd_check(id: &str, tier: &str) {
     let mut samples = vec![];
     let mut scen_summ = vec![];
     let mut det_pairs = 0u64;
+    let mut strata: std::collections::BTreeSet<String> = Default::default();
     let mut harness_errors: Vec<String> = vec![];
     for sc in &check.scens {
         let n = ((if thorough { sc.thorough } else { sc.quick }) as f64 * scale).max(1.0) as u64;
@@ -171,6 +174,7 @@ fn cmd_check(id: &str, tier: &str) {
         );
         scen_summ.push(json!({"scenario": sc.name, "runs": out.runs, "fault_free_runs": out.fault_free_runs, "faulted_runs": out.faulted_runs, "distinct_abstract_traces": out.distinct.len(), "steps": out.stats.steps, "wall_s": secs, "combined_trace_hash": format!("{:016x}", out.combined_trace)}));
         total_runs += out.runs;
+        strata.extend(out.strata.iter().cloned());
         stats.merge(&out.stats);
         distinct += out.distinct.len() as u64;
         ff += out.fault_free_runs;
@@ -304,6 +308,9 @@ fn cmd_check(id: &str, tier: &str) {
             "rare_probes": probes,
             "result_classes_top": results.into_iter().map(|(k, v)| json!([k, v])).collect::<Vec<_>>(),
             "distinct_states": stats.states.len(),
+            "strata_covered": strata.len(),
+            "strata_total": 38 * 4 * 24,
+            "strata_note": "stratum = pattern x psk class {none, single, multi, all} x DH x cipher x hash",
             "scenarios": scen_summ,
             "enumerations": enum_out.summary,
             "components_real": ["snow::Builder", "name parser", "HandshakeState", "SymmetricState", "CipherState", "TransportState", "StatelessTransportState", "DefaultResolver (RustCrypto primitives)", "RingResolver (ring)", "FallbackResolver"],
@@ -321,9 +328,10 @@ fn cmd_check(id: &str, tier: &str) {
             "a clean batch is evidence over the explored runs, not a proof"
         ]
     });
-    let _ = std::fs::create_dir_all(EVIDENCE);
-    std::fs::write(format!("{EVIDENCE}/{id}.json"), serde_json::to_string_pretty(&ev).unwrap()).unwrap();
-    println!("evidence written: {EVIDENCE}/{id}.json  runs={total_runs} distinct_nontrivial={distinct} wall={wall:.1}s");
+    let _ = std::fs::create_dir_all(evidence_dir());
+    std::fs::write(format!("{}/{id}.json", evidence_dir()), serde_json::to_string_pretty(&ev).unwrap()).unwrap();
+    println!("evidence written: {}/{id}.json ", evidence_dir());
+    println!(" runs={total_runs} distinct_nontrivial={distinct} wall={wall:.1}s");
 
     if !harness_errors.is_empty() {
         for e in harness_errors.iter().take(10) {
